@@ -1,6 +1,7 @@
 #![allow(dead_code)]
 //! ilv — runtime monitors for inputlayer (one subcommand per property).
 
+mod crash;
 mod ctx;
 mod eng;
 mod gen;
